@@ -61,6 +61,24 @@ CHECKS.update({
             "DESIGN.md §2 C12"),
 })
 
+CHECKS.update({
+    "C02": ("exploration",
+            "runtime oracle on every emitted solution: reference constraint semantics over /verif's own constraint AST + recomputed computed-repetition counts; fresh spec object (parsed again, empty caches) for harvested specs; production mode with the swallowed-exception path counted",
+            "Each solution handed out by fuzz() is re-judged by evaluators that share no state with the search. Specs include constraints that raise on part of the language, quantifiers, selectors, extra constraints, lazy and eager construction.",
+            "C07's known deviations are not generated; index selectors out of range are an abstention.",
+            "DESIGN.md §2 C02"),
+    "C07": ("exploration",
+            "differential runtime check: real constraint.check (eager and lazy spec) vs. reference semantics on (grammar, tree, constraint) triples; counterfactual attribution of mismatches to listed findings",
+            "Constraints are generated as /verif AST + text (comparisons, and/or, `.`, `..`, [i], [i:j], *<A>, |<A>|, any/all, exists/forall, raising sub-expressions); trees from fuzzing and from parsing fixed words.",
+            "The Python expression itself is evaluated by CPython on the real nodes; shapes the docs are silent on (index out of range, quantifying over slices, `*<a>[i]`, implication) are abstentions.",
+            "DESIGN.md §2 C07"),
+    "C11": ("exploration",
+            "shadow evaluation inside a wrapper of Evaluator.evaluate_individual: sampled evaluations (incl. cache hits) are repeated by a brand-new evaluator on cache-cleared constraint objects on a structural copy; RNG state saved/restored; plus targeted edit/re-evaluate histories",
+            "Compared: fitness (exact float), verdict, failing parts as multiset of (path, symbol, cause).",
+            "Suggestions are not compared; soft-constraint specs excluded.",
+            "DESIGN.md §2 C11"),
+})
+
 NOT_YET = {}
 
 
